@@ -2722,20 +2722,22 @@ do_tproxy_wan_egress_udp(struct __sk_buff *skb, __u32 link_h_len,
 
 fast_path_skip_routing:
 		if (udp_conn_state && tuples->five.dport != bpf_htons(53)) {
-			if (outbound != OUTBOUND_DIRECT || mark != 0 || must) {
-				__builtin_memcpy(udp_conn_state->mac, mac, 6);
-				if (pid_pname) {
-					__builtin_memcpy(udp_conn_state->pname,
-							 pid_pname->pname,
-							 TASK_COMM_LEN);
-					udp_conn_state->pid = pid_pname->pid;
-				}
-				union routing_meta _m = build_routing_meta(outbound,
-								   mark,
-								   must,
-								   tuples->dscp);
-				publish_routing_meta(&udp_conn_state->meta, _m);
+			/* Cache every first decision, plain direct included: later
+			 * datagrams of the flow must not be re-routed when rules or
+			 * learned domains change (same as the LAN ingress path).
+			 */
+			__builtin_memcpy(udp_conn_state->mac, mac, 6);
+			if (pid_pname) {
+				__builtin_memcpy(udp_conn_state->pname,
+						 pid_pname->pname,
+						 TASK_COMM_LEN);
+				udp_conn_state->pid = pid_pname->pid;
 			}
+			union routing_meta _m = build_routing_meta(outbound,
+							   mark,
+							   must,
+							   tuples->dscp);
+			publish_routing_meta(&udp_conn_state->meta, _m);
 		udp_conn_state->last_seen_ns = bpf_ktime_get_ns();
 	}
 
